@@ -492,6 +492,17 @@ def thorough(prop, units, results, seed):
         for km in info['kill_mutants']:
             if not km['killed']:
                 lines.append('NOTE kill mutant not detected: %s' % km['name'])
+    # harmless edits (same meaning, other text): none may alarm; an edit that loses an anchor is reported as undecided
+    hfile = os.path.join(VERIF, 'mutants', 'harmless.json')
+    hs = [h for h in load_json(hfile, []) if h.get('unit') in units]
+    if hs:
+        res = run_mutants(hs, units, seed)
+        info['harmless_edits'] = [{'name': r['name'], 'alarm': r['killed'], 'undecided': any(str(o).startswith('undecided') for o in r.get('obligations', [])), 'note': r.get('note')} for r in res]
+        for r in info['harmless_edits']:
+            if r['alarm']:
+                lines.append('NOTE harmless edit raised an alarm (false alarm): %s' % r['name'])
+            elif r['undecided'] or r['note']:
+                lines.append('NOTE harmless edit left undecided: %s %s' % (r['name'], r['note'] or ''))
     return info, rc, lines
 
 
